@@ -43,7 +43,9 @@ EXPLANATION = (
     "the IR fragment), the SIMD rcp/rsqrt approximations (C07).")
 
 DRIVER = 'drivers/alg_linalg.cpp'
-FLOOR = 44
+FLOOR = 50
+SHAPE_DRIVER = 'drivers/c06_shape.cpp'
+NAMED_CONST = {'zero': 0.0, 'one': 1.0, 'two': 2.0, 'ulp': 1.1920929e-07, 'empty': None}
 
 
 def variants(ctx):
@@ -66,6 +68,245 @@ def expand_ranges(outs, elem):
         else:
             res[slot] = gts
     return res
+
+
+# ============================================================================================
+#  linear forms over the matrix entries (for the conditioning rule)
+# ============================================================================================
+class NotLinear(Exception):
+    pass
+
+
+def linform(tu, e, env, depth=0):
+    """{atom: coeff, 1: const} of an expression that is linear in member-access atoms (vx.x ...); env: local var id -> init expr"""
+    e = tu.strip(e, casts=True)
+    if e is None or depth > 20:
+        raise NotLinear('?')
+    k = e.get('kind')
+    cv = tu.sd(e).get('cv')
+    if k in ('IntegerLiteral',) and cv is not None:
+        return {1: float(cv)}
+    if k == 'FloatingLiteral':
+        return {1: float(e.get('value'))}
+    if k == 'MemberExpr':
+        base = tu.strip(tu.kids(e)[0], casts=True) if tu.kids(e) else None
+        if base is not None and base.get('kind') == 'DeclRefExpr':
+            return {'%s.%s' % (base['referencedDecl'].get('name'), e.get('name')): 1.0}
+        raise NotLinear(tu.show(e))
+    if k == 'DeclRefExpr':
+        d = e['referencedDecl']
+        if d.get('id') in env:
+            return linform(tu, env[d['id']], env, depth + 1)
+        if d.get('name') in NAMED_CONST and NAMED_CONST[d['name']] is not None:
+            return {1: NAMED_CONST[d['name']]}
+        raise NotLinear(tu.show(e))
+    if k in ('CXXMemberCallExpr', 'CXXFunctionalCastExpr', 'CXXConstructExpr', 'CXXTemporaryObjectExpr'):
+        # T(zero) / T(one) / T(ulp): conversion of a named constant object
+        for x in tu.walk(e):
+            if x.get('kind') == 'DeclRefExpr' and x.get('referencedDecl', {}).get('name') in NAMED_CONST:
+                v = NAMED_CONST[x['referencedDecl']['name']]
+                if v is None:
+                    raise NotLinear(tu.show(e))
+                return {1: v}
+        ks = tu.kids(e)
+        if len(ks) == 1:
+            return linform(tu, ks[0], env, depth + 1)
+        raise NotLinear(tu.show(e))
+    if k == 'UnaryOperator' and e.get('opcode') in ('-', '+'):
+        f = linform(tu, tu.kids(e)[0], env, depth + 1)
+        return f if e['opcode'] == '+' else {a: -c for a, c in f.items()}
+    if k == 'BinaryOperator' and e.get('opcode') in ('+', '-'):
+        a = linform(tu, tu.kids(e)[0], env, depth + 1)
+        b = linform(tu, tu.kids(e)[1], env, depth + 1)
+        out = dict(a)
+        for x, c in b.items():
+            out[x] = out.get(x, 0.0) + (c if e['opcode'] == '+' else -c)
+        return out
+    if k == 'BinaryOperator' and e.get('opcode') == '*':
+        a = linform(tu, tu.kids(e)[0], env, depth + 1)
+        b = linform(tu, tu.kids(e)[1], env, depth + 1)
+        for x, y in ((a, b), (b, a)):
+            if set(x) <= {1}:
+                return {at: c * x.get(1, 0.0) for at, c in y.items()}
+        raise NotLinear(tu.show(e))
+    raise NotLinear(tu.show(e))
+
+
+def guard_constraints(tu, cond, truth, env):
+    """list of alternatives; each alternative is a list of linear constraints f >= 0 (closure of strict ones) implied by the
+    branch condition being `truth`.  Handles  L >= R, L > R, L <= R, L < R  with R possibly max(a, b) / min(a, b)."""
+    c = tu.strip(cond, casts=True)
+    if c is None or c.get('kind') != 'BinaryOperator' or c.get('opcode') not in ('>=', '>', '<=', '<'):
+        raise NotLinear('condition ' + tu.show(cond))
+    op = c['opcode']
+    L, R = tu.kids(c)
+    if op in ('<=', '<'):
+        L, R = R, L          # now L >= R (or >)
+    def sides(x):
+        x0 = tu.strip(x, casts=True)
+        if x0 is not None and x0.get('kind') == 'CallExpr' and tu.sd(x0).get('q', '').split('::')[-1] in ('max', 'min'):
+            args = tu.call_parts(x0)[2]
+            return tu.sd(x0)['q'].split('::')[-1], [linform(tu, a, env) for a in args]
+        return None, [linform(tu, x, env)]
+    lk, ls = sides(L)
+    rk, rs = sides(R)
+    def sub(a, b):
+        out = dict(a)
+        for x, cc in b.items():
+            out[x] = out.get(x, 0.0) - cc
+        return out
+    # L >= R
+    if lk is None and rk in (None, 'max'):
+        pos = [[sub(ls[0], r) for r in rs]]                       # L >= every element
+        neg = [[sub(r, ls[0])] for r in rs]                        # some element >= L
+    elif lk is None and rk == 'min':
+        pos = [[sub(ls[0], r)] for r in rs]
+        neg = [[sub(r, ls[0]) for r in rs]]
+    else:
+        raise NotLinear('condition ' + tu.show(cond))
+    return pos if truth else neg
+
+
+def check_branch_conditioning(ctx, tu):
+    """P8c: in the quaternion-from-matrix constructor every branch takes the reciprocal square root of a pivot t; the guards
+    under which a branch is taken must imply t >= 1 for every matrix with entries in [-1, 1] (Shepperd's choice of the
+    largest pivot).  A branch that can be taken with an arbitrarily small t divides rounding errors of O(eps) by sqrt(t):
+    the result is not the rotation of the matrix.  Decided with a linear program over the diagonal entries (polyhedral
+    abstract domain): minimise t subject to the guards."""
+    from scipy.optimize import linprog
+    R = 'R-C06-P8c'
+    ctx.describe(R, 'every branch of quaternion-from-matrix is taken only where its pivot t (argument of rsqrt) is >= 1 for matrices '
+                    'with entries in [-1,1] (guards imply the bound; linear program over the diagonal entries)')
+    n = 0
+    for f in sorted(tu.functions.values(), key=lambda x: x.get('rect', '')):
+        if f['dep'] or not f.get('ctor') or not f['q'].startswith('rkcommon::math::QuaternionT') or len(f['params']) != 3 \
+                or not all('vec_t' in p['ct'] for p in f['params']) or tu.cfg(f) is None:
+            continue
+        g = tu.cfg(f)
+        env = {}
+        for b, i, x in g.stmts():
+            if x.get('kind') == 'DeclStmt':
+                for v in tu.kids(x):
+                    if v.get('kind') == 'VarDecl' and tu.kids(v):
+                        env[v['id']] = tu.kids(v)[-1]
+        # guards of each block: walk the dominator chain through branch edges
+        preds = g.preds()
+        for b, i, x in g.stmts():
+            if x.get('kind') != 'CallExpr' or tu.sd(x).get('q', '').split('::')[-1] != 'rsqrt':
+                continue
+            n += 1
+            arg = tu.call_parts(x)[2][0]
+            inst = '%s: rsqrt(%s) at %s' % (f.get('rect', f['q']).replace('rkcommon::math::', ''), tu.show(arg), tu.loc(x))
+            key = '%s|rkcommon/math/Quaternion.h|QuaternionT(vx,vy,vz)|ill-conditioned-branch' % R
+            try:
+                t = linform(tu, arg, env)
+                # collect guards along the unique predecessor chain (structured if/else-if)
+                alts = [[]]
+                cur = b.id
+                seen = set()
+                while cur != g.entry and cur not in seen:
+                    seen.add(cur)
+                    ps = [p for p in preds[cur] if p in g.reachable()]
+                    if len(ps) != 1:
+                        break
+                    p = ps[0]
+                    pb = g.blocks[p]
+                    if pb.cond is not None and len(pb.succ) == 2 and cur in pb.succ:
+                        truth = (pb.succ[0] == cur)
+                        new = guard_constraints(tu, tu.node(pb.cond), truth, env)
+                        alts = [a + nn for a in alts for nn in new]
+                    cur = p
+            except NotLinear as e:
+                ctx.undecided(R, inst, 'pivot or guard is not a linear form over the matrix entries: %s' % e, tu.loc(x))
+                continue
+            atoms = sorted({a for alt in alts for con in alt for a in con if a != 1} | {a for a in t if a != 1})
+            worst = None
+            for alt in alts:
+                A, bb = [], []
+                for con in alt:       # con >= 0  ->  -con_coeffs . x <= const
+                    A.append([-con.get(a, 0.0) for a in atoms])
+                    bb.append(con.get(1, 0.0))
+                res = linprog([t.get(a, 0.0) for a in atoms], A_ub=A or None, b_ub=bb or None, bounds=[(-1, 1)] * len(atoms), method='highs')
+                if res.status == 2:
+                    continue          # infeasible combination of guards
+                if res.status != 0:
+                    worst = None
+                    ctx.undecided(R, inst, 'linear program not solved (status %d)' % res.status, tu.loc(x))
+                    break
+                val = res.fun + t.get(1, 0.0)
+                if worst is None or val < worst[0]:
+                    worst = (val, dict(zip(atoms, res.x)))
+            if worst is None:
+                continue
+            if worst[0] >= 1 - 1e-6:
+                ctx.ok(R, inst, 'guards imply t >= %.3f' % worst[0], tu.loc(x))
+            else:
+                ctx.violation(R, inst, 'this branch can be taken with its pivot t as small as %.3g (e.g. diagonal %s): rsqrt(t) then amplifies '
+                              'rounding errors of the matrix entries without bound and the quaternion no longer describes the matrix\'s '
+                              'rotation; every branch must be selected only where its pivot is >= 1' % (
+                                  worst[0], ', '.join('%s=%.3g' % kv for kv in sorted(worst[1].items()))), tu.loc(x), key=key)
+    ctx.floor(R, n, 8, '4 branches x (float, double)')
+
+
+def check_slerp(ctx, tu):
+    """slerp: the hemisphere correction (d < 0: a = -a, d = -d) is applied before anything is interpolated, and only the corrected
+    local copy is interpolated (the parameter is read once, to initialise that copy)."""
+    R = 'R-C06-slerp'
+    ctx.describe(R, 'slerp applies the hemisphere correction before any interpolation and interpolates only the corrected copy')
+    n = 0
+    for f in sorted(tu.functions.values(), key=lambda x: x['fty']):
+        if f['dep'] or f['q'] != 'rkcommon::math::slerp' or tu.cfg(f) is None:
+            continue
+        n += 1
+        g = tu.cfg(f)
+        inst = 'slerp %s' % f['fty'].replace('rkcommon::math::', '')
+        key = '%s|rkcommon/math/Quaternion.h|slerp|' % R
+        pa = f['params'][1]['id']
+        # hemisphere test: a branch on `<local scalar> < 0`
+        hemi = None
+        for b in g.blocks.values():
+            if b.cond is None or len(b.succ) != 2:
+                continue
+            c = tu.strip(tu.node(b.cond), casts=True)
+            if c is not None and c.get('kind') == 'BinaryOperator' and c.get('opcode') in ('<', '>'):
+                l, r = tu.kids(c)
+                if c['opcode'] == '>':
+                    l, r = r, l
+                lv = tu.strip(l, casts=True)
+                rv = tu.strip(r, casts=True)
+                if lv.get('kind') == 'DeclRefExpr' and rv.get('kind') in ('FloatingLiteral', 'IntegerLiteral', 'CXXFunctionalCastExpr') \
+                        and float(rv.get('value', 1) or 1) == 0.0:
+                    hemi = b
+        if hemi is None:
+            ctx.undecided(R, inst, 'no `d < 0` hemisphere test recognised', tu.fn_loc(f))
+            continue
+        dom = g.dominators()
+        bad = False
+        for b, i, x in g.stmts():
+            if x.get('kind') == 'ReturnStmt' and hemi.id not in dom.get(b.id, ()):
+                bad = True
+                ctx.violation(R, inst, 'a result is returned at %s on a path that never passed the hemisphere test `%s`: for inputs with a negative '
+                              'dot product the interpolation goes the long way round / through the origin' % (tu.loc(x), tu.show(tu.node(hemi.cond))),
+                              tu.loc(x), key=key + 'return-before-hemisphere-fix')
+        uses = [x for x in tu.walk(tu.body(f)) if x.get('kind') == 'DeclRefExpr' and x.get('referencedDecl', {}).get('id') == pa]
+        inits = 0
+        for u in uses:
+            p = tu.par(u)
+            hops = 0
+            while p is not None and p.get('kind') in ('ImplicitCastExpr', 'CXXConstructExpr', 'ExprWithCleanups', 'MaterializeTemporaryExpr') and hops < 6:
+                p = tu.par(p)
+                hops += 1
+            if p is not None and p.get('kind') == 'VarDecl':
+                inits += 1
+            elif p is not None and p.get('kind') == 'CallExpr' and tu.sd(p).get('q', '').split('::')[-1] == 'dot':
+                pass        # the dot product may be taken from the parameter
+            else:
+                bad = True
+                ctx.violation(R, inst, 'the uncorrected parameter `%s` is used at %s outside the initialisation of the local copy: the '
+                              'hemisphere correction is bypassed' % (f['params'][1]['name'], tu.loc(u)), tu.loc(u), key=key + 'uncorrected-operand-used')
+        if not bad:
+            ctx.ok(R, inst, 'every return is dominated by the hemisphere test; the parameter only initialises the corrected copy', tu.fn_loc(f))
+    ctx.floor(R, n, 2, 'slerp<float>, slerp<double>')
 
 
 def run(ctx):
@@ -152,6 +393,9 @@ def run(ctx):
             else:
                 ctx.ok(rule, inst, '%d output slot(s) identical' % len(slots), DRIVER)
         ctx.floor('%s [%s]' % (R, vname), n, FLOOR, 'identity drivers in %s: 46 on the pinned tree' % DRIVER)
+    tu = ctx.front.parse(SHAPE_DRIVER, 'TBB')
+    check_branch_conditioning(ctx, tu)
+    check_slerp(ctx, tu)
     ctx.extra['ir_units'] = ir_units
     ctx.extra['programs'] = len(ir_units)
     ctx.extra['disagreements_checked'] = len(ctx.obl)
